@@ -132,7 +132,7 @@ func runStreamStress(c *core.Ctx, rounds int) ([]*Trace, error) {
 type c19done struct{}
 
 // runSubscriberRespawnStress: a parent re-spawns child "c" under the same name as soon as it hears of its termination;
-// every incarnation subscribes at launch and asks to be replaced after it has received three events; a publisher
+// every incarnation subscribes at launch and asks to be replaced after it has received an event; a publisher
 // publishes all the time.  An incarnation that is subscribed must receive events: if the rounds stop advancing, the
 // current incarnation is subscribed and deaf.
 func runSubscriberRespawnStress(rounds int) ([]*Trace, error) {
@@ -152,7 +152,7 @@ func runSubscriberRespawnStress(rounds int) ([]*Trace, error) {
 				ctx.EventStream().Subscribe(ctx, evA{})
 			case evA:
 				got++
-				if got == 3 {
+				if got == 1 {
 					ctx.Tell(ctx.Parent(), c19done{})
 				}
 			}
@@ -190,7 +190,9 @@ func runSubscriberRespawnStress(rounds int) ([]*Trace, error) {
 			}
 			id++
 			sys.EventStream().Publish(sys, evA{ID: id})
-			time.Sleep(20 * time.Microsecond)
+			if id%8 == 0 {
+				time.Sleep(5 * time.Microsecond)
+			}
 		}
 	}()
 	defer close(stop)
@@ -217,5 +219,5 @@ func runSubscriberRespawnStress(rounds int) ([]*Trace, error) {
 	}
 	ev = append(ev, map[string]any{"e": "QEnd"})
 	return []*Trace{{Events: ev, Class: "subscriber-respawn-stress", Name: fmt.Sprintf("subscriber respawn stress (%d of %d rounds)", round.Load(), rounds),
-		Scenario: map[string]any{"rounds": rounds, "completed": round.Load(), "what": "child 'c' subscribes at launch and is replaced under the same name after three events; a publisher publishes continuously; the incarnation of the last round received nothing for 1.5 s"}}}, nil
+		Scenario: map[string]any{"rounds": rounds, "completed": round.Load(), "what": "child 'c' subscribes at launch and is replaced under the same name after its first event; a publisher publishes continuously; the incarnation of the last round received nothing for 1.5 s"}}}, nil
 }
